@@ -111,6 +111,14 @@ def run_build(cli, r, texts, lib_convert, workdir, idx):
         # stems with blanks, non-ASCII letters, and dots (two inputs that differ only after a dot must not collide)
         nm = r.choice(["d%d_a", "d%d_fig", "d%d_x y", "d%d_über", "net.v%d", "fig.1.%d", "a.b.c%d", "d%d."]) % i
         names.append(nm)
+        if i == 1 and r.random() < 0.5:
+            # a matching file that is a symbolic link to a regular file elsewhere (a file like any other for `build`)
+            os.makedirs(os.path.join(d, "store"), exist_ok=True)
+            real = os.path.join(d, "store", "real%d.txt" % i)
+            with open(real, "w", encoding="utf-8") as f:
+                f.write(texts[i % len(texts)])
+            os.symlink(real if r.random() < 0.5 else os.path.join("..", "store", "real%d.txt" % i), os.path.join(src, nm + ".bob"))
+            continue
         with open(os.path.join(src, nm + ".bob"), "w", encoding="utf-8") as f:
             f.write(texts[i % len(texts)])
     for i in range(r.randint(0, 2)):
